@@ -62,6 +62,10 @@ type workerTrack struct {
 	// Scheduler time at the end of the last Synchronize call.
 	expected  time.Time
 	hasSynced bool
+	// model is the removal deadline according to the harness's own model:
+	// end of the last Synchronize call that looked at the worker's state,
+	// plus the configured timeout.
+	model time.Time
 }
 
 type oracles struct {
@@ -89,10 +93,13 @@ type oracles struct {
 	skippedSteps         int
 	checkedSteps         int
 	lastCounts           scheduler.VerifCounts
+	fair                 *fairness
 }
 
 func newOracles(w *world) *oracles {
-	return &oracles{w: w, streams: map[*stream]*streamTrack{}, wtrack: map[string]*workerTrack{}, kills: map[string]bool{}}
+	o := &oracles{w: w, streams: map[*stream]*streamTrack{}, wtrack: map[string]*workerTrack{}, kills: map[string]bool{}}
+	o.fair = newFairness(o)
+	return o
 }
 
 // violate reports a violation if it belongs to the property this run checks
@@ -232,6 +239,7 @@ func (o *oracles) afterStep() {
 	}
 	o.snapshotInvariants(snap)
 	o.diff(o.prev, snap, pending)
+	o.fairnessStep(snap)
 	for _, obs := range pending {
 		o.process(obs, snap)
 	}
@@ -242,6 +250,7 @@ func (o *oracles) afterStep() {
 			w.violate("C06/wrong-worker-timeout", fmt.Sprintf("worker %s: removal deadline moved from %s to %s outside of a Synchronize call", nw.WorkerKey, tr.expected.Format(time.RFC3339), nw.Timeout.Format(time.RFC3339)))
 		}
 	}
+	o.wakeupInvariants(snap)
 	w.analyzer.calls = nil
 	o.prev = snap
 }
@@ -461,6 +470,26 @@ func (o *oracles) diff(prev, snap *scheduler.VerifSnapshot, pending []observatio
 
 func (wa *workerActor) inCallOrJustReturned() bool { return true }
 
+// fairnessStep feeds the C04 policy model.
+func (o *oracles) fairnessStep(snap *scheduler.VerifSnapshot) {
+	w := o.w
+	var actingWorker *workerActor
+	for _, wa := range w.workers {
+		if w.k.LastActor != nil && wa.actor == w.k.LastActor {
+			actingWorker = wa
+		}
+	}
+	completedByWorker := false
+	if actingWorker != nil && actingWorker.req != nil && o.prev != nil {
+		if ex := actingWorker.req.CurrentState.GetExecuting(); ex != nil && ex.GetCompleted() != nil {
+			if pw := findWorker(o.prev, actingWorker.queueKey(), actingWorker.workerKey()); pw != nil && pw.ActionDigest == ex.ActionDigest.GetHash() {
+				completedByWorker = true
+			}
+		}
+	}
+	o.fair.step(o.prev, snap, actingWorker, completedByWorker)
+}
+
 // queueRemovalDue computes when a worker-created queue may be removed: the
 // removal deadline of its last worker plus the configured timeout.
 func (o *oracles) queueRemovalDue(prev *scheduler.VerifSnapshot, pq *scheduler.VerifQueue, now time.Time) time.Time {
@@ -591,8 +620,12 @@ func (o *oracles) checkCompletionCause(op, pop *scheduler.VerifOperation, prev, 
 		if pop != nil && pop.WorkerKey != "" {
 			pw := findWorker(prev, pop.Queue, pop.WorkerKey)
 			okCause = pw != nil && !pw.InSync && !pw.Timeout.After(snap.Now)
+			if tr := o.wtrack[pop.WorkerKey+"|"+fmt.Sprint(pop.Queue)]; okCause && tr != nil && tr.hasSynced && tr.model.After(snap.Now) {
+				okCause = false
+			}
 		}
 		if !okCause {
+			w.violate("C02/false-cause:worker-disappeared", fmt.Sprintf("operation %s was failed with %q although its worker synchronized recently enough", op.Name, st.Message()))
 			w.violate("C06/premature-worker-timeout", fmt.Sprintf("operation %s failed with %q although its worker's timeout has not passed", op.Name, st.Message()))
 		}
 		w.k.Probe("task_failed_worker_disappeared")
@@ -607,6 +640,7 @@ func (o *oracles) checkCompletionCause(op, pop *scheduler.VerifOperation, prev, 
 			}
 		}
 		if !okCause {
+			w.violate("C02/false-cause:queue-removed", fmt.Sprintf("operation %s was failed with %q before its queue's removal was due", op.Name, st.Message()))
 			w.violate("C06/premature-queue-removal", fmt.Sprintf("operation %s failed with %q before its queue's removal was due", op.Name, st.Message()))
 		}
 		w.k.Probe("task_failed_queue_removed")
@@ -618,11 +652,13 @@ func (o *oracles) checkCompletionCause(op, pop *scheduler.VerifOperation, prev, 
 			for i := range prev.Operations {
 				x := &prev.Operations[i]
 				if x.TaskID == pop.TaskID && (!x.HasTimeout || x.Timeout.After(snap.Now)) {
+					w.violate("C02/false-cause:no-waiting-clients", fmt.Sprintf("operation %s was cancelled for lack of waiting clients although operation %s of the same task is still in use", op.Name, x.Name))
 					w.violate("C03/cancelled-with-remaining-operations", fmt.Sprintf("task %s was cancelled when operation %s was abandoned, although operation %s still uses it", op.ActionDigest[:8], op.Name, x.Name))
 				}
 			}
 		}
 		if !okCause {
+			w.violate("C02/false-cause:no-waiting-clients", fmt.Sprintf("operation %s was cancelled for lack of waiting clients before its timeout", op.Name))
 			w.violate("C06/premature-abandonment", fmt.Sprintf("operation %s was cancelled for lack of waiters before its timeout", op.Name))
 		}
 		w.k.Probe("task_cancelled_no_waiters")
@@ -637,6 +673,7 @@ func (o *oracles) checkCompletionCause(op, pop *scheduler.VerifOperation, prev, 
 			if pop != nil {
 				rc = pop.RetryCount
 			}
+			w.violate("C02/false-cause:retry-limit", fmt.Sprintf("operation %s failed with %q after %d re-issues (limit %d)", op.Name, st.Message(), rc, w.cfg.WorkerTaskRetryCount))
 			w.violate("C06/retry-limit-miscounted", fmt.Sprintf("operation %s failed with %q after %d re-issues (limit %d)", op.Name, st.Message(), rc, w.cfg.WorkerTaskRetryCount))
 		}
 		w.k.Probe("task_failed_retry_limit")
@@ -789,6 +826,9 @@ func (o *oracles) processSyncEnd(obs observation, snap *scheduler.VerifSnapshot)
 		if !wk.Timeout.Equal(want) && (obs.err == nil || !tr.hasSynced || !wk.Timeout.Equal(tr.expected)) {
 			w.violate("C06/wrong-worker-timeout", fmt.Sprintf("worker %s finished synchronizing at %s (err=%v) but is scheduled for removal at %s instead of %s", wa.name, snap.Now.Format(time.RFC3339), obs.err, wk.Timeout.Format(time.RFC3339), want.Format(time.RFC3339)))
 		}
+		if obs.err == nil || wk.Timeout.Equal(want) || !tr.hasSynced {
+			tr.model = want
+		}
 		tr.expected = wk.Timeout
 		tr.hasSynced = true
 	}
@@ -822,6 +862,51 @@ func (o *oracles) processSyncEnd(obs observation, snap *scheduler.VerifSnapshot)
 		}
 	}
 	_ = emptypb.Empty{}
+}
+
+// wakeupInvariants: a call that is still blocked must still have something
+// to wait for (C06: every blocked call returns once its condition occurred).
+func (o *oracles) wakeupInvariants(snap *scheduler.VerifSnapshot) {
+	w := o.w
+	op := w.operator
+	if op.blocking && op.actor.Blocked() {
+		if op.termTasks == nil {
+			// First quiescent point inside TerminateWorkers: remember which
+			// tasks it waits for.
+			op.termTasks = map[string]uintptr{}
+			for i := range snap.Workers {
+				wk := &snap.Workers[i]
+				if wk.TaskID != 0 && matchesPattern(wk.WorkerID, op.termPattern) {
+					op.termTasks[wk.WorkerKey+"|"+fmt.Sprint(wk.Queue)] = wk.TaskID
+				}
+			}
+		} else {
+			waiting := false
+			for i := range snap.Workers {
+				wk := &snap.Workers[i]
+				if id, ok := op.termTasks[wk.WorkerKey+"|"+fmt.Sprint(wk.Queue)]; ok && id == wk.TaskID {
+					waiting = true
+				}
+			}
+			if !waiting {
+				w.violate("C06/terminate-workers-not-woken", fmt.Sprintf("TerminateWorkers(%v) is still blocked although none of the workers it waits for runs the task it had any more", op.termPattern))
+			}
+			w.k.Probe("terminate_workers_blocked")
+		}
+	}
+	for _, c := range w.clients {
+		s := c.cur
+		if s == nil || s.ended || !c.actor.Blocked() || len(s.sent) == 0 {
+			continue
+		}
+		tr := o.streams[s]
+		if tr == nil || tr.doneSeen {
+			continue
+		}
+		if sop := findOp(snap, tr.opName); sop != nil && sop.Stage == remoteexecution.ExecutionStage_COMPLETED {
+			w.violate("C06/waiter-not-woken", fmt.Sprintf("stream %s is still blocked although operation %s has completed", s.id, tr.opName))
+		}
+	}
 }
 
 // finalChecks runs after every party has left.
@@ -901,6 +986,9 @@ func (o *oracles) finish() {
 		nstreams++
 	}
 	r.Count("streams", nstreams)
+	r.Count("fairness_pull_assignments_checked", o.fair.checkedPull)
+	r.Count("fairness_handoffs_checked", o.fair.checkedPush)
+	r.Count("fairness_stickiness_decisions", o.fair.stickyTurns)
 	r.NonTrivial = o.assignments > 0 && (o.maxConcurrentStreams >= 2 || len(w.k.FaultsFired) > 0)
 }
 
